@@ -26,7 +26,10 @@ def check(case):
         tree = P.parse(text)
     except Exception as e:  # a well-formed file must be accepted
         return [Failure('C01.rejected', '%s: %s' % (type(e).__name__, str(e)[:300]))]
-    got, problems = P.project(tree)
+    try:
+        got, problems = P.project(tree)
+    except P.MalformedTree as e:
+        return [Failure('C01.tree-malformed', str(e)[:300])]
     out = []
     if problems:
         out.append(Failure('C01.tree-bookkeeping', '; '.join(problems)[:600]))
